@@ -392,6 +392,7 @@ def observe_run(c, fe, opts, nan_at=None, np_seed=0):
     o['returned_point_faulted'] = bool(any(l[2] > 0 and len(l[0]) == len(xr) and np.array_equal(np.asarray(l[0]), xr) for l in log))
     o['last_eval_faulted'] = bool(log and log[-1][2] > 0)
     o['returned_fun_is_logged_value'] = bool(any(l[1] == fun for l in log))
+    o['returned_x_evaluated'] = bool(any(len(l[0]) == len(xr) and np.array_equal(np.asarray(l[0]), xr) for l in log))
     o['returned_point_evaluated'] = bool(any(len(l[0]) == len(xr) and np.array_equal(np.asarray(l[0]), xr) and l[1] == fun for l in log))
     o['message'] = str(getattr(res, 'message', ''))[:120]
     o['values_after'] = values(problem)
